@@ -15,7 +15,7 @@ Definition exn_of (e : err) : exn :=
   match e with
   | StateDict.KeyError => PyPrelude.KeyError | StateDict.TypeError => PyPrelude.TypeError
   | StateDict.ValueError => PyPrelude.ValueError | StateDict.AttributeError => PyPrelude.AttributeError
-  | RuntimeError => ArithmeticError        (* never produced by flatten / unflatten *)
+  | StateDict.RuntimeError => PyPrelude.RuntimeError   (* never produced by flatten / unflatten *)
   | Unmodelled => UnmodelledEffect
   end.
 Definition to_gen {A} (r : StateDict.result A) : PyPrelude.result A :=
